@@ -14,7 +14,7 @@ from .common import L
 
 ID = "C16"
 RUNS = {"quick": 16_000, "thorough": 320_000}
-BUDGET_S = {"quick": 60, "thorough": 800}
+BUDGET_S = {"quick": 120, "thorough": 800}
 CHUNK = 150
 RULE = ("each run draws a multi-agent (domain, problem), a state and 1-4 calls by distinct agents that the reference finds "
         "serialisable as a set in that state, pads them with nops at tape-chosen slots and presents them in every member "
@@ -105,7 +105,8 @@ def run(ctx):
     from pddl_plus_parser.multi_agent import MultiAgentTrajectoryExporter
     from pddl_plus_parser.models import ActionCall
     ok, want, why = interp.serialisable(S, [(W.action(a), args) for a, args in members], W.D, W.objs)
-    assert ok, why
+    if not ok:
+        raise RuntimeError(f"harness: generated members are not serialisable: {why}")
     ctx.log("input", W.dom_text_plain, sorted(S[0]), sorted(S[1].items()), tuple(map(str, members)))
     ctx.nontrivial = len(members) >= 2 and not interp.state_eq(S, want)
     ctx.probes[f"members_{len(members)}"] += 1
@@ -294,7 +295,8 @@ def check_joint_plan(ctx, W, S, members, agents, d, p, ops):
         for m in group:
             slots[agents.index(agent_of(m, agents))] = m
         ok, nxt, why = interp.serialisable(cur, [(W.action(a), args) for a, args in group], W.D, W.objs)
-        assert ok
+        if not ok:
+            raise RuntimeError("harness: generated joint plan step is not serialisable")
         plan.append(slots)
         cur = nxt
         steps_ref.append(cur)
